@@ -98,6 +98,7 @@ def text_of(v):
     raise NoOpinion(f'text form of {type(v).__name__}')
 
 
+_ISODATE = re.compile(r'^\s*(\d{4})-(\d{1,2})-(\d{1,2})\s*$')
 _NUMTXT = re.compile(r'^\s*[+-]?(\d+(\.\d*)?|\.\d+)([eE][+-]?\d+)?\s*$')
 
 
@@ -579,8 +580,30 @@ def _value(ev, a, sh, at):
     v = ev.arg_scalar(a[0], sh, at)
     if is_num(v):
         return v
-    if not isinstance(v, str) or not _NUMTXT.match(v):
-        raise NoOpinion('VALUE of non numeric text')
+    if isinstance(v, str) and not _NUMTXT.match(v):
+        t = v.strip()
+        m = re.match(r'^([+-]?(?:\d+\.?\d*|\.\d+))\s*%$', t)
+        if m:
+            # a percentage: the number it denotes is body/100; dividing the double of the body by 100 may be one ulp off - both accepted
+            from fractions import Fraction
+            if ev.choose('percent_text_divided_as_double'):
+                return float(m.group(1)) / 100
+            return float(Fraction(m.group(1)) / 100)
+        m = _ISODATE.match(t)
+        if m:
+            try:
+                return (dt.datetime(int(m.group(1)), int(m.group(2)), int(m.group(3))) - dt.datetime(1899, 12, 30)).days
+            except ValueError:
+                raise XlError('#VALUE!')
+        m = re.match(r'^(\d{1,2}):(\d{2})(?::(\d{2}))?$', t)
+        if m and int(m.group(1)) < 24 and int(m.group(2)) < 60 and int(m.group(3) or 0) < 60:
+            from fractions import Fraction
+            return float(Fraction(int(m.group(1)) * 3600 + int(m.group(2)) * 60 + int(m.group(3) or 0), 86400))
+        if t and not any(ch.isdigit() for ch in t):
+            raise XlError('#VALUE!')
+        raise NoOpinion('VALUE of a text in a national number / date format')
+    if not isinstance(v, str):
+        raise NoOpinion('VALUE of a non-text')
     t = v.strip()
     return float(t) if ('.' in t or 'e' in t.lower()) else int(t)
 
@@ -854,7 +877,6 @@ def _address(ev, a, sh, at):
 
 
 # ---- C12 -----------------------------------------------------------------------------------------
-_ISODATE = re.compile(r'^\s*(\d{4})-(\d{1,2})-(\d{1,2})\s*$')
 def crit_matcher(ev, crit):
     """crit: evaluated criterion scalar -> predicate(cell value) (may consult choice flags)"""
     if isinstance(crit, bool):
